@@ -63,8 +63,10 @@ func c28Scenario() *explore.Scenario {
 			n := lens[x.Choose("n", len(lens))]
 			// epoch 1 (TLS 1.3): the same calls were already made once under the previous traffic key,
 			// at the same sequence position, before a KeyUpdate replaced the outgoing key
-			epoch := x.Choose("epoch", 2)
-			if epoch == 1 && (s.vers != tls.VersionTLS13 || n > 256) {
+			// epoch 2 (TLS 1.3): the outgoing key was replaced because the SERVER asked for it
+			// (KeyUpdate with update_requested, answered from inside the client's Read)
+			epoch := x.Choose("epoch", 3)
+			if epoch != 0 && (s.vers != tls.VersionTLS13 || n > 256) {
 				r.Obs = "n/a"
 				return
 			}
@@ -83,7 +85,18 @@ func c28Scenario() *explore.Scenario {
 			ccfg.DynamicRecordSizingDisabled = true // so that a write of n <= 16384 bytes is one record
 			hs := peer.Run(ccfg, tls.HelloCustom, scfg, peer.Opts{KeepOpen: true,
 				Prepare:     func(u *tls.UConn) error { return u.ApplyPreset(singleSuiteSpec(s)) },
-				ServerAfter: func(c *tls.Conn) error { _, err := io.Copy(received, c); return err }})
+				ServerAfter: func(c *tls.Conn) error {
+					if epoch == 2 {
+						if err := tls.VerifSendKeyUpdate(c, true); err != nil {
+							return err
+						}
+						if _, err := c.Write([]byte{0x77}); err != nil {
+							return err
+						}
+					}
+					_, err := io.Copy(received, c)
+					return err
+				}})
 			defer hs.Finish()
 			what := fmt.Sprintf("suite %04x vers %04x position %d calls-mode %d n=%d key-epoch=%d", s.id, s.vers, pos, calls, n, epoch)
 			if !hs.OK() {
@@ -95,6 +108,13 @@ func c28Scenario() *explore.Scenario {
 				return
 			}
 			var sent []byte
+			if epoch == 2 {
+				one := make([]byte, 1)
+				if _, err := io.ReadFull(hs.U, one); err != nil || one[0] != 0x77 {
+					r.Violate("INFRA|c28-requested-keyupdate", "%s: reading the byte behind the server's KeyUpdate: %v", what, err)
+					return
+				}
+			}
 			if epoch == 1 {
 				for i := 0; i < pos; i++ {
 					m := []byte{byte(i), 0x52, 0x53}
@@ -273,7 +293,7 @@ func c28Scenarios(thorough bool) []*explore.Scenario {
 func init() {
 	register(&Prop{ID: "C28", Level: "exploration", Variant: "A", Scenarios: c28Scenarios,
 		Run: func(c *explore.Check, thorough bool) {
-			c.Rule = "8 AEAD suites (3 TLS 1.3, 5 TLS 1.2 incl. static-RSA GCM and both ChaCha20) x n in {0..64,255,256,1000,16384} x sequence position {0,1,2,300 records written before} x call pattern {once, twice, a 4096-byte call then twice} x (TLS 1.3) key epoch {first, after a KeyUpdate that followed the same calls at the same position}: keystream[:n] XOR plaintext == ciphertext of the next application-data record after the explicit nonce, and the peer receives exactly the bytes sent; with dynamic record sizing on: 8 suites x n {0,1,100,2000,16384} x call placement {before the first write, between writes, both} x 4 write scripts (up to 40000 bytes), the same connection script run with and without the calls puts the same record lengths on the wire. distinct = (suite, position, pattern, n)"
+			c.Rule = "8 AEAD suites (3 TLS 1.3, 5 TLS 1.2 incl. static-RSA GCM and both ChaCha20) x n in {0..64,255,256,1000,16384} x sequence position {0,1,2,300 records written before} x call pattern {once, twice, a 4096-byte call then twice} x (TLS 1.3) key epoch {first, after a KeyUpdate that followed the same calls at the same position, after answering a server KeyUpdate(update_requested) from inside Read}: keystream[:n] XOR plaintext == ciphertext of the next application-data record after the explicit nonce, and the peer receives exactly the bytes sent; with dynamic record sizing on: 8 suites x n {0,1,100,2000,16384} x call placement {before the first write, between writes, both} x 4 write scripts (up to 40000 bytes), the same connection script run with and without the calls puts the same record lengths on the wire. distinct = (suite, position, pattern, n)"
 			c.Assumptions = []string{"the suite is pinned by a custom spec offering exactly that suite; legacy ChaCha20 code points are not negotiable with the utls server and are covered for data transfer by C27"}
 			runAll(c, c28Scenarios(thorough), 0)
 		}})
